@@ -199,7 +199,23 @@ def build(theorems, gen=True):
                 mods = sorted({'Dlismodel.' + os.path.relpath(os.path.join(r, f), os.path.join(LEAN, 'Dlismodel'))[:-5].replace(os.sep, '.')
                                for sub in ('Proofs', 'Props', 'Generated')
                                for r, _, fs in os.walk(os.path.join(LEAN, 'Dlismodel', sub)) for f in fs if f.endswith('.lean')})
-                rc3, out3 = sh(['lake', 'env', 'leanchecker'] + mods, cwd=LEAN, timeout=3000)
+                # the re-check is a function of the compiled files: remember the result per build state
+                import hashlib
+                sig = hashlib.sha256()
+                for r_, _, fs_ in sorted(os.walk(os.path.join(LEAN, '.lake', 'build', 'lib'))):
+                    for f_ in sorted(fs_):
+                        if f_.endswith('.olean'):
+                            pth = os.path.join(r_, f_)
+                            st_ = os.stat(pth)
+                            sig.update(f'{pth}:{st_.st_size}:{st_.st_mtime_ns}\n'.encode())
+                stamp = os.path.join(LEAN, '.lake', 'leanchecker.stamp')
+                if os.path.exists(stamp) and open(stamp).read().strip() == sig.hexdigest():
+                    rc3, out3 = 0, ''
+                else:
+                    rc3, out3 = sh(['lake', 'env', 'leanchecker'] + mods, cwd=LEAN, timeout=3000)
+                    if rc3 == 0:
+                        with open(stamp, 'w') as f_:
+                            f_.write(sig.hexdigest())
                 res.rechecked = (rc3 == 0)
                 if rc3 != 0:
                     res.lib_ok = False
